@@ -174,7 +174,7 @@ func runC12(r *Run) {
 						if b.Op == token.NEQ {
 							nilEdge = ci.OnFalse
 						}
-						if len(nilEdge.Preds) == 1 && nilEdge.Dominates(pc.Block()) {
+						if len(nilEdge.Preds) == 1 && blockDominates(nilEdge, pc.Block()) {
 							ok = true
 						}
 					}
@@ -212,7 +212,7 @@ func runC12(r *Run) {
 					e, ok := v.(*ssa.Extract)
 					return ok && e.Tuple == ssa.Value(lk) && e.Index == 1
 				}) {
-					if ci.OnFalse.Dominates(b) && len(ci.OnFalse.Preds) == 1 {
+					if blockDominates(ci.OnFalse, b) && len(ci.OnFalse.Preds) == 1 {
 						okNF = true
 					}
 				}
@@ -224,7 +224,7 @@ func runC12(r *Run) {
 				}
 				return containsErrorField(cc.Call.Args[0]) && stopped != nil && loadsGlobal(cc.Call.Args[1], stopped)
 			}) {
-				if ci.OnFalse.Dominates(b) && len(ci.OnFalse.Preds) == 1 {
+				if blockDominates(ci.OnFalse, b) && len(ci.OnFalse.Preds) == 1 {
 					okStop = true
 				}
 			}
